@@ -54,15 +54,17 @@ Fq4OK == lvl = 4 =>
     /\ P4(TA!MulNR4(xa)) = X!Mul(P4(xa), WP(3))
     /\ (ya[1] = TA!Z2 => TA!Mul1_4(xa, ya) = TA!Mul4(xa, ya))
     /\ (Norm4(xa) # TA!Z2 => TA!Mul4(TA!Inv4(xa), xa) = TA!O4)
-    /\ \A code \in {10, 11, 12, 21, 22, 30, 31, 32} :
-          X!Mul(P4(TA!Frob4(xa, code)), WP(code % 10)) = PowP(X!Mul(P4(xa), WP(code % 10)), (code \div 10) - 1)
+\* the eight Frobenius codes, on every element of F_13^4 (one fixed second operand)
+Init4F == lvl = 4 /\ xa \in (Fq2All \X Fq2All) /\ ya = << <<1, 0>>, <<0, 0>> >>
+Fq4Frob == lvl = 4 =>
+    \A code \in {10, 11, 12, 21, 22, 30, 31, 32} :
+          X!Mul(P4(TA!Frob4(xa, code)), WP(code % 10)) = PowP(X!Mul(P4(xa), WP(code % 10)), code \div 10)
 Sparse015(y) == << y[1], TA!Z4, << TA!Z2, y[3][2] >> >>
-Fq12OK == lvl = 12 =>
-    /\ TA!ToPoly(TA!Mul12(xa, ya)) = X!Mul(TA!ToPoly(xa), TA!ToPoly(ya))
-    /\ TA!Sqr12(xa) = TA!Mul12(xa, xa)
-    /\ TA!Mul015(xa, Sparse015(ya)) = TA!Mul12(xa, Sparse015(ya))
-    /\ TA!ToPoly(TA!MulNR12(xa)) = X!Mul(TA!ToPoly(xa), WP(1))
-    /\ TA!FromPoly(TA!ToPoly(xa)) = xa
-    /\ \A k \in {1, 2, 3, 6} : TA!ToPoly(TA!Frob12(xa, k)) = PowP(TA!ToPoly(xa), k - 1) /\ TA!ToPoly(TA!Frob12(xa, k)) = X!Frob(TA!ToPoly(xa), k)
-    /\ (X!Mul(TA!ToPoly(xa), X!Inv(TA!ToPoly(xa))) = X!One => TA!Mul12(TA!Inv12(xa), xa) = TA!O12)
+T12Mul == lvl = 12 => TA!ToPoly(TA!Mul12(xa, ya)) = X!Mul(TA!ToPoly(xa), TA!ToPoly(ya))
+T12Sqr == lvl = 12 => TA!Sqr12(xa) = TA!Mul12(xa, xa)
+T12M015 == lvl = 12 => TA!Mul015(xa, Sparse015(ya)) = TA!Mul12(xa, Sparse015(ya))
+T12NR == lvl = 12 => TA!ToPoly(TA!MulNR12(xa)) = X!Mul(TA!ToPoly(xa), WP(1)) /\ TA!FromPoly(TA!ToPoly(xa)) = xa
+T12Frob == lvl = 12 => \A k \in {1, 2, 3, 6} : TA!ToPoly(TA!Frob12(xa, k)) = PowP(TA!ToPoly(xa), k) /\ TA!ToPoly(TA!Frob12(xa, k)) = X!Frob(TA!ToPoly(xa), k)
+T12Inv == lvl = 12 => (X!Mul(TA!ToPoly(xa), X!Inv(TA!ToPoly(xa))) = X!One => TA!Mul12(TA!Inv12(xa), xa) = TA!O12)
+Fq12OK == T12Mul /\ T12Sqr /\ T12M015 /\ T12NR /\ T12Frob /\ T12Inv
 =============================================================================
